@@ -92,9 +92,29 @@ fn into_iri<'a>(s: &'a str, mut prefix: &str) -> Cow<'a, str> {
     }
 }
 
+/// Escapes a string for use inside a JSON string literal (without the surrounding quotes)
+fn json_escape<'a>(s: &'a str) -> Cow<'a, str> {
+    if s.chars().all(|c| c != '"' && c != '\\' && c >= ' ') {
+        return Cow::Borrowed(s);
+    }
+    let mut out = String::with_capacity(s.len() + 8);
+    for c in s.chars() {
+        match c {
+            '"' => out += "\\\"",
+            '\\' => out += "\\\\",
+            '\n' => out += "\\n",
+            '\r' => out += "\\r",
+            '\t' => out += "\\t",
+            c if c < ' ' => out += &format!("\\u{:04x}", c as u32),
+            c => out.push(c),
+        }
+    }
+    Cow::Owned(out)
+}
+
 fn value_to_json(value: &DataValue) -> String {
     match value {
-        DataValue::String(s) => format!("\"{}\"", s.replace("\n", "\\n").replace("\"", "\\\"")),
+        DataValue::String(s) => format!("\"{}\"", json_escape(s)),
         x => x.to_string(),
     }
 }
@@ -221,7 +241,7 @@ impl<'store> ResultItem<'store, Annotation> {
         ann_out += &config.serialize_context();
         ann_out += ",";
         if let Some(iri) = self.iri(&config.default_annotation_iri) {
-            ann_out += &format!("  \"id\": \"{}\",", iri);
+            ann_out += &format!("  \"id\": \"{}\",", json_escape(&iri));
         } else if config.generate_annotation_iri {
             let id = nanoid!();
             ann_out += &format!(
@@ -306,7 +326,7 @@ impl<'store> ResultItem<'store, Annotation> {
             }
             if !suppress_body_id {
                 if let Some(iri) = self.iri(&config.default_annotation_iri) {
-                    ann_out += &format!(" \"id\": \"{}/body\",", iri);
+                    ann_out += &format!(" \"id\": \"{}/body\",", json_escape(&iri));
                 } else if config.generate_annotation_iri {
                     let id = nanoid!();
                     ann_out += &format!(
@@ -367,13 +387,13 @@ fn output_predicate_datavalue(
         // in conversion from/to RDF.
         format!(
             "\"{}\": {{ \"id\": \"{}\" }}",
-            config.uri_to_namespace(predicate),
-            datavalue
+            json_escape(&config.uri_to_namespace(predicate)),
+            json_escape(&datavalue.to_string())
         )
     } else {
         format!(
             "\"{}\": {}",
-            config.uri_to_namespace(predicate),
+            json_escape(&config.uri_to_namespace(predicate)),
             &value_to_json(datavalue)
         )
     }
@@ -402,10 +422,10 @@ fn output_selector(
                 }
                 ann_out += &format!(
                     "{{ \"source\": \"{}\", \"selector\": {{ \"type\": \"TextPositionSelector\", \"start\": {}, \"end\": {} }} }}",
-                    into_iri(
+                    json_escape(&into_iri(
                         resource.id().expect("resource must have ID"),
                         &config.default_resource_iri
-                    ),
+                    )),
                     textselection.begin(),
                     textselection.end(),
                 );
@@ -425,7 +445,7 @@ fn output_selector(
                     if !ann_out.is_empty() {
                         ann_out.push(',');
                     }
-                    ann_out += &format!("\"{}\"", &template);
+                    ann_out += &format!("\"{}\"", json_escape(&template));
                     if !nested && !second_pass {
                         ann_out += " ]";
                     }
@@ -438,7 +458,10 @@ fn output_selector(
         Selector::AnnotationSelector(a_handle, None) => {
             let annotation = store.annotation(*a_handle).expect("annotation must exist");
             if let Some(iri) = annotation.iri(&config.default_annotation_iri) {
-                ann_out += &format!("{{ \"id\": \"{}\", \"type\": \"Annotation\" }}", iri);
+                ann_out += &format!(
+                    "{{ \"id\": \"{}\", \"type\": \"Annotation\" }}",
+                    json_escape(&iri)
+                );
             } else {
                 ann_out += "{ \"id\": null }";
                 eprintln!("WARNING: Annotation points to an annotation that has no public ID! Unable to serialize to Web Annotatations");
@@ -448,20 +471,20 @@ fn output_selector(
             let resource = store.resource(*res_handle).expect("resource must exist");
             ann_out += &format!(
                 "{{ \"id\": \"{}\", \"type\": \"Text\" }}",
-                into_iri(
+                json_escape(&into_iri(
                     resource.id().expect("resource must have ID"),
                     &config.default_resource_iri
-                ),
+                )),
             );
         }
         Selector::DataSetSelector(set_handle) => {
             let dataset = store.dataset(*set_handle).expect("resource must exist");
             ann_out += &format!(
                 "{{ \"id\": \"{}\", \"type\": \"Dataset\" }}",
-                into_iri(
+                json_escape(&into_iri(
                     dataset.id().expect("dataset must have ID"),
                     &config.default_resource_iri
-                ),
+                )),
             );
         }
         Selector::CompositeSelector(selectors) => {
